@@ -9,6 +9,14 @@ META = {
                 text="SVD_k contract of the real Decomposer.fit (all solver branches, real/complex, numpy/dask) and the C01 clauses of the real EOF._fit_algorithm/_transform_algorithm/_inverse_transform_algorithm/explained_variance_ratio are discharged for all shapes n,p,k, all spectra and both fields; HilbertEOF/ExtendedEOF augmentation, the preprocessing chain, extreme scales and the randomised solvers are evaluated on real fits (bounded, labelled).",
                 note="assumed: library SVD back-end contracts (exactness of randomised solvers assumed), reals for floats, Eckart-Young as axiom, parametric dimension names; trusted: proxies/facades (vf/sym/xda.py), normaliser, z3; bounded part: 90 (quick) / ~600 (thorough) real fits",
                 ref="5/C01"),
+    "C16": dict(level="proof", technique="contract-based deductive verification: the real Whitener.fit kernel chain (Whitener -> _fractional_matrix_power -> _SVD.fit_transform) and the Whitener/PCA maps traced symbolically against sidecar contracts, normaliser + z3; bounded real runs as labelled stand-in",
+                text="T^H C T = C^alpha, T/Tinv Hermitian and mutually inverse, data and pattern maps mutually inverse, identity exactly for alpha>=1, alpha<0 refused, PCA maps inverse on the retained subspace: discharged on the real code for all n>p, all alpha in [0,1], real and complex. Conditioning up to 1e6, the eps cut-off, PCA's leading-subspace property and dask are bounded runs.",
+                note="assumed: np.linalg.svd contract + PD lemma, exact inverse, eps cut-off read as 0 under full rank, reals for floats; trusted: proxies (vf/sym/xda.py, nd.py), normaliser, z3; bounded: 110 (quick) / ~330 (thorough) real Whitener/PCA runs",
+                ref="5/C16"),
+    "C09": dict(level="proof", technique="contract-based deductive verification: real CPCCA._fit_algorithm/_transform_algorithm/_compute_cross_matrix traced with Decomposer replaced by its SVD_k contract and Whitener by its fit contract; normaliser + z3; bounded real cross-set fits as labelled stand-in",
+                text="scores1^H scores2/(n-1) = diag(sigma), sigma descending >= 0, norms, orthonormal components, total squared covariance, transform(fit data)=scores and the Pearson-correlation clauses (self-correlation exactly one, cross-correlation = correlation of paired scores) are discharged for all shapes and both fields. Proportionality to the independently whitened cross-covariance, CCA/RDA/Complex/Hilbert variants, PCA pre-reduction, p>n and the pattern methods are evaluated on real fits (bounded).",
+                note="assumed: SVD_k (proved under C01), Whitener.fit contract (proved under C16), argsort contract, reals for floats, centred non-degenerate scores for the correlation clauses, statsmodels import stub; bounded: 60 (quick) / ~300 (thorough) real fits",
+                ref="5/C09"),
 }
 NA_REASON = "no check registered yet in this snapshot of /verif (build in progress; see DESIGN.md section 5 for the plan)"
 
